@@ -56,17 +56,21 @@ type c08Case struct {
 	Runs   int      `json:"runs"`
 	J      int      `json:"raise_at_access"` // -1 = never
 	NMI    bool     `json:"nmi"`
+	J2     int      `json:"raise2_at_access,omitempty"` // second request (thorough); 0 = none
+	NMI2   bool     `json:"nmi2,omitempty"`
 	Stale  bool     `json:"stale_halt_flag"`
 	Salt   uint32   `json:"salt"`
 }
 
 type c08Side struct {
-	cpu z80.CPU
-	mem *obs.Mem
-	io  *obs.IO
-	n   int
-	j   int
-	nmi bool
+	cpu  z80.CPU
+	mem  *obs.Mem
+	io   *obs.IO
+	n    int
+	j    int
+	nmi  bool
+	j2   int
+	nmi2 bool
 }
 
 func newC08Side(bg *[65536]uint8) *c08Side {
@@ -76,6 +80,13 @@ func newC08Side(bg *[65536]uint8) *c08Side {
 	hook := func() {
 		if s.n == s.j {
 			if s.nmi {
+				s.cpu.Interrupt = z80.NMIInterrupt()
+			} else {
+				s.cpu.Interrupt = z80.IM1Interrupt()
+			}
+		}
+		if s.j2 > 0 && s.n == s.j2 {
+			if s.nmi2 {
 				s.cpu.Interrupt = z80.NMIInterrupt()
 			} else {
 				s.cpu.Interrupt = z80.IM1Interrupt()
@@ -110,7 +121,7 @@ func (s *c08Side) load(p *c08Prog, cs *c08Case) {
 			s.cpu.BreakPoints[b] = struct{}{}
 		}
 	}
-	s.n, s.j, s.nmi = 0, cs.J, cs.NMI
+	s.n, s.j, s.nmi, s.j2, s.nmi2 = 0, cs.J, cs.NMI, cs.J2, cs.NMI2
 }
 
 // twinRun applies the stop rule of the statement around Step.
@@ -220,7 +231,7 @@ func checkC08(c *Ctx) {
 		cases = append(cases, c08Case{Prog: pi, BPs: []uint16{p.pc}, Runs: 4, J: -1, Stale: true, Salt: c.Salt})
 	}
 	c.Rule = fmt.Sprintf("%d terminating programs (straight line; HALT first; multi-byte instruction with a breakpoint inside; code wrapping FFFF->0000 into a HALT; DJNZ loop with a breakpoint on its head; LDIR with a breakpoint on itself; CALL/RET; EI + IN/OUT with handlers; DI;HALT; prefix-only tail; JP; HALT;HALT) x all subsets of each program's 2..5 candidate breakpoint addresses + nil map + stale halted indication (%d configurations) x history Run;Run;Run;Run x {no request, NMI or IM1 raised from inside the memory/port callback at every access index j of the history}. Oracle: Step-driven twin with the stop rule applied outside. Non-trivial = histories with at least one breakpoint hit or callback-raised request (counted).", len(progs), len(cases))
-	c.Bound = "4 Run calls; <=1 callback-raised request (every access index)"
+	c.Bound = "4 Run calls; <=1 callback-raised request at every access index (thorough: <=2, every pair of indices)"
 	bg := obsBackground(c)
 	type sidePair struct{ a, b *c08Side }
 	pairs := make([]*sidePair, 16)
@@ -264,6 +275,25 @@ func checkC08(c *Ctx) {
 						return
 					}
 				}
+			}
+			if !c.Quick() {
+				// deviation bound 2: two callback-raised requests at every pair of access indices
+				for j := 0; j < total+2; j++ {
+					for j2 := j + 1; j2 < total+6; j2++ {
+						for k := 0; k < 4; k++ {
+							cs.J, cs.NMI, cs.J2, cs.NMI2 = j, k&1 != 0, j2, k&2 != 0
+							d, n := c08One(sp.a, sp.b, p, &cs)
+							ev++
+							nt++
+							st += int64(n)
+							if d != nil {
+								report(d)
+								return
+							}
+						}
+					}
+				}
+				cs.J2 = 0
 			}
 			if c.TimeUp() {
 				if atomic.CompareAndSwapInt32(&capped, 0, 1) {
